@@ -52,6 +52,7 @@ import Earverif.Proofs.C08Chna
 import Earverif.Proofs.C08Refs
 import Earverif.Model.AdmRefsDoc
 import Earverif.Proofs.C08Float
+import Earverif.Proofs.C08FloatDoc
 
 namespace Earverif.C08
 open Earverif.Digits Earverif.TimeFormat Earverif.GenIds
@@ -1424,6 +1425,149 @@ example : (12345678 : ℕ) < 2 ^ 36 * 10 ^ 5 ∧ numText 12345678 = ['1', '2', '
   decide +kernel
 
 end FloatLeaf
+
+/-! ## The float leaf composed with the document model (generic handler-table path + gain + jumpPosition) -/
+
+section FloatDoc
+open Earverif.XmlCodec Earverif.XmlBlocks Earverif.XmlElements Earverif.FloatText Earverif.FloatDoc
+
+/-- the regenerated parser table that renders a block format -/
+def blockTable (b : Block) : String := "audioBlockFormat:" ++ b.kind
+
+/-- a block format and, for Matrix blocks, its coefficients -/
+def blockElems (v2 : Bool) (b : Block) : List (String × List Row × Obj XV) :=
+  ("audioBlockFormat", rowsOf v2 (blockTable b), b.toObj) ::
+  (match b with
+    | .matrix m => m.matrix.map fun c => ("coefficient", rowsOf v2 "coefficient", c.toObj)
+    | _ => [])
+
+def interactionElems (v2 : Bool) : Option Interaction → List (String × List Row × Obj XV)
+  | some i => [("audioObjectInteraction", rowsOf v2 "audioObjectInteraction", i.toObj)]
+  | none => []
+
+def loudnessElems (v2 : Bool) (ls : List Loudness) : List (String × List Row × Obj XV) :=
+  ls.map fun l => ("loudnessMetadata", rowsOf v2 "loudnessMetadata", l.toObj)
+
+/-- every element of a document that is rendered by a parser of the regenerated table, main and nested:
+(element name, the table rows of its parser, the object as the parser sees it) -/
+def docElems (v2 : Bool) (d : Document) : List (String × List Row × Obj XV) :=
+  d.programmes.flatMap (fun p =>
+    ("audioProgramme", rowsOf v2 "audioProgramme", p.toObj) ::
+    ("audioProgrammeReferenceScreen", (Earverif.Gen.C08.parsers.lookup "audioProgrammeReferenceScreen").getD [],
+      p.referenceScreen.toObj) :: loudnessElems v2 p.loudnessMetadata) ++
+  d.contents.flatMap (fun c => ("audioContent", rowsOf v2 "audioContent", c.toObj) :: loudnessElems v2 c.loudnessMetadata) ++
+  d.objects.flatMap (fun o =>
+    ("audioObject", rowsOf v2 "audioObject", o.toObj) :: interactionElems v2 o.audioObjectInteraction ++
+    o.alternativeValueSets.flatMap fun a =>
+      ("alternativeValueSet", rowsOf v2 "alternativeValueSet", a.toObj) :: interactionElems v2 a.audioObjectInteraction) ++
+  d.packFormats.map (fun p => ("audioPackFormat", rowsOf v2 "audioPackFormat", p.toObj)) ++
+  d.channelFormats.flatMap (fun c =>
+    ("audioChannelFormat", rowsOf v2 "audioChannelFormat", c.toObj) :: c.audioBlockFormats.flatMap (blockElems v2)) ++
+  d.streamFormats.map (fun s => ("audioStreamFormat", rowsOf v2 "audioStreamFormat", s.toObj)) ++
+  d.trackFormats.map (fun t => ("audioTrackFormat", rowsOf v2 "audioTrackFormat", t.toObj)) ++
+  d.trackUIDs.map (fun u => ("audioTrackUID", rowsOf v2 "audioTrackUID", u.toObj))
+
+/-- **`NumsBounded`** (decidable): in every element of the document — main elements, loudnessMetadata, reference
+screen, audioObjectInteraction, alternativeValueSet, block formats of all five types, Matrix coefficients — every
+grid number `Leaf.num k` under a declarative `FloatType` row of the element's regenerated parser table and every
+linear `gain` written by a hand-written gain handler satisfies `|k| < 2^36·10^5` (or is the handler default, which is
+not written), and every jumpPosition interpolationLength additionally `0 ≤ k`.  Numbers held in the other hand-written
+structures (listed in `Proofs/C08FloatDoc.lean`) are not constrained and not covered. -/
+def NumsBounded (v2 : Bool) (d : Document) : Bool :=
+  (docElems v2 d).all fun e => ObjNumsBoundedX e.2.1 e.2.2
+
+/-- **C08 on the model with real float text, document level (partial: generic handler-table path, gain handlers,
+jumpPosition).**  For a `DocValid`, `NumsBounded` document: in every element `e` of the document rendered by a parser
+of the regenerated table (`docElems`; the XML is `toXml (propsX v2 rows) name obj`, and the listed texts are attribute
+values / child texts of it: `floatTexts_in_toXml`),
+(1) every text written by a declarative `FloatType` row is `fmt5` of the double nearest to a grid number `k / 10^5`
+    stored in the object — the text the real `FloatType.dumps` emits —, `parseFloat` (the real `float()`) of it is that
+    double and printing that double again gives the same text (`RealFloatText`);
+(2) the same for every `gain` text written by the five hand-written gain handlers;
+(3) every jumpPosition `interpolationLength` text is `secondsDumps` of the stored Fraction (the real
+    `SecondsType.dumps`), `parseFraction` reads it back exactly and writing again gives the same text;
+and the conclusion of `C08_roundtrip_model` holds.
+MISSING for the unsuffixed statement: the numbers written by the other hand-written handlers of
+`Model/XmlCustom.lean` (position / speaker position with bounds, channelLock maxDistance, objectDivergence,
+zoneExclusion, positionOffset, frequency, screen centre position / width, gain and position interaction ranges) are
+`Int` fields rendered with `dumpsNum` directly; they are not traversed (apply `floatCodec_refines` leaf by leaf), and a
+gain given in dB (`XV.gainDB`) is symbolic.  That a nested element's XML is a descendant of its main element's XML is
+by definition of `loudnessListImpl` / `blocksImpl` / `matrixImpl` / `avsListImpl` / `interactionImpl` / `screenImpl`
+and is not restated here. -/
+theorem C08_roundtrip_model_floats_partial (v2 : Bool) (d : Document) (hv : DocValid v2 d)
+    (hb : NumsBounded v2 d = true) :
+    (∀ e ∈ docElems v2 d,
+      (∀ t ∈ floatTexts (implX v2) e.2.1 e.2.2, ∃ r ∈ e.2.1, ∃ k : ℤ, NumAt e.2.2 r.argName k ∧ RealFloatText k t) ∧
+      (∀ t ∈ gainTexts v2 e.2.1 e.2.2, ∃ k : ℤ, NumAt e.2.2 "gain" k ∧ RealFloatText k t) ∧
+      (∀ t ∈ jumpTexts v2 e.2.1 e.2.2, ∃ (j : Earverif.XmlCustom.JumpPosition) (k : ℤ),
+        e.2.2 "jumpPosition" = .one (.jump j) ∧ j.interpolationLength = some k ∧ RealSecondsText k t)) ∧
+    ((∀ p ∈ d.programmes, RoundTrips (propsX v2 (rowsOf v2 "audioProgramme")) programmeDefaults "audioProgramme" p.toObj) ∧
+    (∀ c ∈ d.contents, RoundTrips (propsX v2 (rowsOf v2 "audioContent")) contentDefaults "audioContent" c.toObj) ∧
+    (∀ o ∈ d.objects, RoundTrips (propsX v2 (rowsOf v2 "audioObject")) objectDefaults "audioObject" o.toObj) ∧
+    (∀ p ∈ d.packFormats, RoundTrips (propsX v2 (rowsOf v2 "audioPackFormat")) packDefaults "audioPackFormat" p.toObj) ∧
+    (∀ c ∈ d.channelFormats,
+      RoundTrips (propsX v2 (rowsOf v2 "audioChannelFormat")) channelDefaults "audioChannelFormat" c.toObj) ∧
+    (∀ s ∈ d.streamFormats,
+      RoundTrips (propsX v2 (rowsOf v2 "audioStreamFormat")) streamDefaults "audioStreamFormat" s.toObj) ∧
+    (∀ t ∈ d.trackFormats, RoundTrips (propsX v2 (rowsOf v2 "audioTrackFormat")) noneDefaults "audioTrackFormat" t.toObj) ∧
+    (∀ u ∈ d.trackUIDs, RoundTrips (propsX v2 (rowsOf v2 "audioTrackUID")) noneDefaults "audioTrackUID" u.toObj)) := by
+  refine ⟨fun e he => ?_, C08_roundtrip_model v2 d hv⟩
+  exact obj_numTexts_real v2 e.2.1 e.2.2 ((List.all_eq_true.mp hb) e he)
+
+/-- the generic path, any parser of the regenerated table and any object (class level; `impl` arbitrary) -/
+theorem C08_table_floatTexts_real :
+    ∀ t ∈ Earverif.Gen.C08.parsers, ∀ (impl : Row → CustomImpl XV) (name : String) (o : Obj XV),
+      ObjNumsBounded t.2 o = true →
+      ∀ s ∈ floatTexts impl t.2 o,
+        ((∃ kv ∈ (toXml (t.2.map (ofRowG liftCodec XV.leaf impl)) name o).attrs, kv.2 = s) ∨
+         (∃ c ∈ (toXml (t.2.map (ofRowG liftCodec XV.leaf impl)) name o).children, c.text = s)) ∧
+        ∃ r ∈ t.2, ∃ k : ℤ, NumAt o r.argName k ∧ RealFloatText k s :=
+  fun t _ impl name o hb s hs =>
+    ⟨floatTexts_in_toXml impl t.2 name o s hs, obj_floatTexts_real impl t.2 o hb s hs⟩
+
+/-- the example document of `DocValid` with float leaves: programme `maxDuckingDepth = -3.0` (negative), a
+loudnessMetadata with `integratedLoudness = -23.0` and `maxTruePeak = 1.5`, object gain 0.5, an Objects block with
+`width = 45.0`, gain 0.25 and a jumpPosition of 0.2 s -/
+def exFloatDoc : Document :=
+  { programmes := [⟨"APR_1001", "p", none, none, none, some (-300000), ["ACO_1001"], defaultScreen,
+      [⟨none, none, none, some (-2300000), none, some 150000, none, none, none⟩], []⟩],
+    contents := [⟨"ACO_1001", "c", none, none, ["AO_1001"], [], []⟩],
+    objects := [⟨"AO_1001", "o", none, none, none, none, none, none, ["AP_00031001"], [], [], [some "ATU_00000001"],
+      50000, false, none, [], none⟩],
+    packFormats := [], channelFormats := [], streamFormats := [], trackFormats := [],
+    trackUIDs := [⟨"ATU_00000001", some 48000, some 24, none, some "AC_00031001", some "AP_00031001"⟩] }
+
+/-- non-vacuity: the hypotheses hold for `exFloatDoc`, and the float texts of its programme, loudnessMetadata and
+object are the expected strings (one negative) -/
+example : DocValid true exFloatDoc ∧ NumsBounded true exFloatDoc = true ∧
+    (exFloatDoc.programmes.flatMap fun p => floatTexts (implX true) (rowsOf true "audioProgramme") p.toObj)
+      = ["-3.00000"] ∧
+    (exFloatDoc.programmes.flatMap fun p => p.loudnessMetadata.flatMap fun l =>
+      floatTexts (implX true) (rowsOf true "loudnessMetadata") l.toObj) = ["-23.00000", "1.50000"] ∧
+    (exFloatDoc.objects.flatMap fun o => gainTexts true (rowsOf true "audioObject") o.toObj) = ["0.50000"] := by
+  refine ⟨⟨?_, ?_, ?_, ?_, ?_⟩, by decide +kernel, by decide +kernel, by decide +kernel, by decide +kernel⟩
+  · intro p hp; simp [exFloatDoc] at hp; subst hp
+    exact ⟨fun _ h => by simp at h, fun _ h => by simp at h, by simp [defaultScreen, Earverif.XmlCustom.CentrePosition.inRange],
+      fun h => by simp at h⟩
+  · intro c hc; simp [exFloatDoc] at hc; subst hc; exact ⟨fun h => by simp at h⟩
+  · intro o ho; simp [exFloatDoc] at ho; subst ho
+    exact ⟨fun _ h => by simp at h, fun _ h => by simp at h, fun s h => by simp at h; subst h; decide,
+      fun q h => by simp at h, fun a h => by simp at h, fun i h => by simp at h, fun h => by simp at h⟩
+  · intro c hc; simp [exFloatDoc] at hc
+  · intro u hu; simp [exFloatDoc] at hu; subst hu; exact fun h => by simp at h
+
+/-- … and with an Objects block (width 45.0, gain 0.25, jumpPosition with interpolationLength 0.2 s): the bounded
+predicate holds and the three kinds of texts are as expected -/
+example :
+    let b : ObjectsBlock := ⟨"AB_00031001_00000001", none, none, .polar 0 0 100000 ⟨none, none⟩, none, ⟨true, some 20000⟩, none,
+      4500000, 0, 0, 0, false, false, [], 25000, 10⟩
+    ObjNumsBoundedX (rowsOf true "audioBlockFormat:Objects") b.toObj = true ∧
+    floatTexts (implX true) (rowsOf true "audioBlockFormat:Objects") b.toObj = ["45.00000"] ∧
+    gainTexts true (rowsOf true "audioBlockFormat:Objects") b.toObj = ["0.25000"] ∧
+    jumpTexts true (rowsOf true "audioBlockFormat:Objects") b.toObj = ["0.20000"] := by
+  decide +kernel
+
+end FloatDoc
 
 /-! ## Summary -/
 
